@@ -77,11 +77,26 @@ def install_models(ex, U):
     def m_block_range(ex_, st, cname, args, dest_ty, fn):
         return text_range(U.bs, U.be)
 
+    def as_range(ex_, st, v):
+        """a TextRange the analyzer obtained from some other syntax node (e.g. the tag itself): the analyzer only sees
+        nodes below its comment, so it is an arbitrary range inside the comment"""
+        if isinstance(v, Agg):
+            return v
+        if isinstance(v, symex.Ref):
+            return as_range(ex_, st, ex_.deref(st, v))
+        if isinstance(v, Opaque):
+            a = z3.BitVec(ex_.sym((v.k, "range_start")), U.cs.size())
+            b = z3.BitVec(ex_.sym((v.k, "range_end")), U.cs.size())
+            for c in (z3.ULE(U.cs, a), z3.ULE(a, b), z3.ULE(b, U.ce)):
+                st.pc.append(c)
+            return text_range(a, b)
+        raise symex.Unsupported("not a range: %r" % (v,))
+
     def m_start(ex_, st, cname, args, dest_ty, fn):
-        return args[0].fields[0]
+        return as_range(ex_, st, args[0]).fields[0]
 
     def m_end(ex_, st, cname, args, dest_ty, fn):
-        return args[0].fields[1]
+        return as_range(ex_, st, args[0]).fields[1]
 
     def m_new(ex_, st, cname, args, dest_ty, fn):
         s, e = args[0], args[1]
@@ -510,6 +525,11 @@ def _mk_battery():
     add("block_scope", "do\n---@diagnostic disable: undefined-global\naa()\nend\nbb()\n", [4], [2], "disable in a nested block ends with the block")
     add("block_after_line_comment", "do\naa()\n---@diagnostic disable-next-line: unused\nlocal _u = 1\n---@diagnostic disable: undefined-global\nend\n", [], [1],
         "a block-wide disable placed after a line-scoped comment still covers earlier diagnostics of the block")
+    add("next_line_multiline_comment", "---@diagnostic disable-next-line: undefined-global\n---@type any\nlocal v = aa()\nbb()\n", [3], [2],
+        "the next line is the line after the whole comment, also when more comment lines follow the tag")
+    add("next_line_tag_in_the_middle", "--- some text\n---@diagnostic disable-next-line: undefined-global\n--- more text\naa()\nbb()\n", [4], [3],
+        "a tag in the middle of a multi-line comment still covers the line after the comment")
+    add("disable_line_multiline_comment", "aa() ---@diagnostic disable-line: undefined-global\nbb()\n", [1], [0], "disable-line behind code on the first line")
     add("no_list_suppresses_all_next_line", "---@diagnostic disable-next-line\naa()\nbb()\n", [2], [1], "no code list: every code on the next line")
     return b
 
